@@ -13,8 +13,10 @@ mod dtunknown;
 mod forged;
 mod mkdirall;
 mod mkdots;
+mod mkrace;
 mod readdir;
 mod readend;
+mod readsrc;
 mod rmall;
 mod rmarg;
 mod rwcopy;
@@ -53,9 +55,11 @@ fn main() {
         "dirhandle" => dirhandle::phase(&args, &master.path),
         "forged" => forged::phase(&args, &master.path),
         "mkdots" => mkdots::phase(&args, &master.path),
+        "mkrace" => mkrace::phase(&args, &master.path),
+        "readsrc" => readsrc::phase(&args, &master.path),
         "dtunknown" => dtunknown::phase(&args, &master.path),
         "rmarg" => rmarg::phase(&args, &master.path),
-        _ => panic!("unknown phase (mkdirall|mkdots|rwcopy|readend|copysrc|readdir|forged|dirhandle|dtunknown|rmall|rmarg|seq|builder)"),
+        _ => panic!("unknown phase (mkdirall|mkdots|mkrace|readsrc|rwcopy|readend|copysrc|readdir|forged|dirhandle|dtunknown|rmall|rmarg|seq|builder)"),
     };
     drop(master);
     let (tb, why) = util::temp_base();
@@ -85,6 +89,8 @@ fn replay(v: &serde_json::Value, r: &mut Report) {
             let v = if v.get("of").is_some() { &v["of"] } else { v };
             rwcopy::run_case(&block, &rwcopy::RwCase::from_json(v).expect("rwcopy case"), r)
         }
+        "mkrace" => mkrace::run_case(&block, &mkrace::RaceCase::from_json(v).expect("mkrace case"), r),
+        "readsrc" => readsrc::run_case(&block, &readsrc::RsCase::from_json(v).expect("readsrc case"), r),
         "mkdots" => mkdots::run_case(&block, &mkdots::DotCase::from_json(v).expect("mkdots case"), r),
         "copysrc" => copysrc::run_case(&block, &copysrc::CsCase::from_json(v).expect("copysrc case"), r),
         "forged" => forged::run_case(&block, &forged::FgCase::from_json(v).expect("forged case"), r),
